@@ -48,6 +48,7 @@ pub mod k;
 pub mod codec;
 pub mod gen;
 pub mod model;
+pub mod neon_emul;
 pub mod stubs;
 pub mod c01;
 pub mod c02;
@@ -62,5 +63,6 @@ pub mod c11;
 pub mod c12;
 pub mod c14;
 pub mod c15;
+pub mod c15e;
 pub mod c17;
 pub mod scratch;
